@@ -358,7 +358,7 @@ var shapes = []struct {
 }{
 	{`P0`, 1}, {`P0P1`, 2}, {`P0P1P2`, 3}, {`P0/P1`, 2}, {`P0 P1`, 2}, {`P0&amp;P1`, 2}, {`P0:P1`, 2}, {`P0&colon;P1`, 2}, {`P0&#58;P1`, 2}, {`P0t:P1`, 2}, {`P0:`, 1}, {`P0:alert(1)`, 1}, {`P0&Tab;:x`, 1}, {`P0x`, 1}, {`P0, P1`, 2}, {`P0 1x, P1 2x`, 2},
 	{`{{if $.C1}}P0{{end}}P1`, 2}, {`{{if $.C1}}P0{{else}}x{{end}}P1`, 2}, {`{{range $.L0}}{{.E0}}{{end}}`, 0}, {`{{range $.L0}}{{.E0}}{{.E1}}{{end}}`, 0}, {`{{range $.L0}}{{.E0}}/{{end}}`, 0}, {`P0{{range $.L0}}{{.E0}}{{end}}`, 1},
-	{`{{with $.S0}}{{.}}{{end}}P1`, 2}, {`{{template "leaf" $.S0}}P1`, 2}, {`P0{{template "leaf" $.S1}}`, 2}, {`{{template "two" $}}`, 0}, {`{{template "leaf" $.S0}}{{template "leaf" $.S1}}`, 2}, {`{{template "leaf" $.S0}}/{{template "leaf" $.S1}}`, 2}, {`{{template "leaf" $.S0}}" title="x" data-x="/p/{{template "leaf" $.S1}}`, 2}, {`/q/{{template "leaf" $.S0}}"></a><a href="{{template "leaf" $.S1}}`, 2}, {`{{$.S0 | urlquery}}P1`, 2}, {`{{$.S0 | html}}P1`, 2}, {`{{print $.S0 $.S1}}`, 0},
+	{`{{with $.S0}}{{.}}{{end}}P1`, 2}, {`{{template "leaf" $.S0}}P1`, 2}, {`P0{{template "leaf" $.S1}}`, 2}, {`{{template "two" $}}`, 0}, {`{{template "leaf" $.S0}}{{template "leaf" $.S1}}`, 2}, {`{{template "leaf" $.S0}}/{{template "leaf" $.S1}}`, 2}, {`{{template "leaf" $.S0}}" title="x" data-x="/p/{{template "leaf" $.S1}}`, 2}, {`/q/{{template "leaf" $.S0}}"></a><a href="{{template "leaf" $.S1}}`, 2}, {`{{$.S0 | urlquery}}P1`, 2}, {`{{if $.C1}}{{else}}java{{end}}P0`, 1}, {`{{if $.C1}}/x/{{else}}P0{{end}}:alert(1)`, 1}, {`{{if $.C1}}P0{{else}}/x/{{end}}:alert(1)`, 1}, {`{{if $.C1}}{{else}}x{{end}}P0`, 1}, {`{{if $.C1}}/p/{{else}}{{if $.C0}}/p/{{else}}/p?q={{end}}{{end}}P0`, 1}, {`{{if $.C1}}P0{{else}}x{{end}}y:P1`, 2}, {`P0&#x3{{/* c */}}a;alert(1)`, 1}, {`P0&col{{if $.C1}}on;{{end}}x`, 1}, {`{{$.S0 | html}}P1`, 2}, {`{{print $.S0 $.S1}}`, 0},
 }
 
 const helpersW1 = `{{define "leaf"}}{{.}}{{end}}{{define "two"}}{{$.S0}}{{$.S1}}{{end}}`
@@ -415,7 +415,7 @@ func w1Data(d string, c1, c2 int, tailMarker bool) (gen.DataSpec, gen.DataSpec) 
 
 func run(c *core.Ctx) {
 	// W1
-	splitStrings := []string{"javascript:alert(1)", "JaVaScRiPt:alert(1)", "java\tscript:x", " javascript:x", "//evil.example/x.js", "https://evil.example/x.js", "..", "../x", "x.css", "/ok.js"}
+	splitStrings := []string{"javascript", "javascript:alert(1)", "JaVaScRiPt:alert(1)", "java\tscript:x", " javascript:x", "//evil.example/x.js", "https://evil.example/x.js", "..", "../x", "x.css", "/ok.js"}
 	idx := 0
 	r1 := c.Rng("w1")
 	for _, t := range targets {
@@ -429,7 +429,7 @@ func run(c *core.Ctx) {
 					text := w1Template(t, q, pre, sh.tmpl)
 					c.Journal(util.JSON(map[string]string{"template": text}))
 					d := splitStrings[idx%len(splitStrings)]
-					nsplit := c.N(3, 12)
+					nsplit := c.N(4, 12)
 					for n := 0; n < nsplit; n++ {
 						c1 := r1.Intn(len(d) + 1)
 						c2 := c1 + r1.Intn(len(d)-c1+1)
@@ -440,6 +440,11 @@ func run(c *core.Ctx) {
 							c1, c2 = 4, len(d) // "java" | "script:..."
 						}
 						hs, is := w1Data(d, c1, c2, true)
+						if n == 2 && len(d) > 4 {
+							// the first part carries the tail: static text of the template may supply the head
+							hs.S[0] = util.Q(d[4:] + "zQ8z")
+							is.S[0] = util.Q("w1")
+						}
 						checkOne(c, text, hs, is, false)
 					}
 					if c.Thorough() && pre == "" && sh.parts >= 2 {
@@ -453,6 +458,24 @@ func run(c *core.Ctx) {
 					}
 				}
 			}
+		}
+	}
+	// tag names split over template nodes: the pieces form one name in the output
+	splitNames := []string{
+		`<s{{/**/}}cript>{{$.S0}}</script>`, `<s{{if $.C0}}cript{{end}}>{{$.S0}}</script>`, `<s{{if $.C1}}cript{{end}}>{{$.S0}}</script>`, `<s{{/**/}}tyle>{{$.S0}}</style>`, `<scr{{/* c */}}ipt>{{$.S0}}</script>`,
+		`<s{{/**/}}cript src="{{$.S0}}"></script>`, `<i{{/**/}}frame src="{{$.S0}}"></iframe>`, `<i{{/**/}}frame srcdoc="{{$.S0}}"></iframe>`, `<b{{/**/}}ase href="{{$.S0}}">`, `<a{{/**/}}pplet code="{{$.S0}}">`, `<l{{/**/}}ink rel="stylesheet" href="{{$.S0}}">`,
+		`<e{{/**/}}mbed src="{{$.S0}}">`, `<o{{/**/}}bject data="{{$.S0}}"></object>`, `<a{{with $.S1}}rea{{end}} href="{{$.S0}}">`, `<p{{/**/}} onclick="{{$.S0}}">x</p>`, `<p on{{/**/}}click="{{$.S0}}">x</p>`, `<p st{{/**/}}yle="{{$.S0}}">x</p>`,
+		`<iframe src{{/**/}}doc="{{$.S0}}"></iframe>`, `<s{{template "leaf" "cript"}}>{{$.S0}}</script>`, `{{if $.C0}}<s{{else}}<b{{end}}cript>{{$.S0}}</script>`, `<a h{{/**/}}ref="{{$.S0}}">x</a>`,
+	}
+	for i, text := range splitNames {
+		if !c.Mine(i) {
+			continue
+		}
+		for n := 0; n < 6; n++ {
+			hs, is := w1Data([]string{"zQ9zalert(1)", "javascript:alert(1)", "//evil.example/x.js"}[n%3], 0, 0, false)
+			hs.S[0], hs.S[2] = hs.S[2], hs.S[0] // the whole string in S0
+			hs.C[0], is.C[0] = n%2 == 0, n%2 == 0
+			checkOne(c, helpersW1+text, hs, is, false)
 		}
 	}
 	c.SetExhaustive("W1 family: targets x quotes x prefixes x shapes")
